@@ -5,7 +5,7 @@
      float.pow(int) = f64::powi = compiler-rt's __powidf2 (square-and-multiply, every product rounded);
      powf calls libm `pow`: the impl-model only says WHICH arguments reach libm (LibmPow x y);
      the text of a float (to_str, `+`) is Rust's float printing: Outside.
-   *_head = the arm at the pinned HEAD where fixes/c14-builtins.diff changes it. *)
+   *_head = the arm as it was before the fix: commits a7759b5..1441424 (fixes/c14-*.diff) repaired it. *)
 From MS Require Import Base.Str Builtins.Val Builtins.Numeral.
 From Flocq Require Import IEEE754.BinarySingleNaN.
 Open Scope Z_scope.
